@@ -323,6 +323,9 @@ def prepare_label(s: str, convert_unicode: bool, to_snake_case: bool) -> str:
             prev = s
             s = "".join(ch for ch in s if ("a" + ch).isidentifier())
             s = unicodedata.normalize("NFKC", s)
+            # Combining marks can not start identifier (digits can not as well but they are spelled out below)
+            while s and not s[0].isidentifier() and unicodedata.digit(s[0], None) is None:
+                s = s[1:]
     if not ('a' <= s[0].lower() <= 'z'):
         # Digits of any script can not start identifier
         digit = unicodedata.digit(s[0], None)
